@@ -668,6 +668,9 @@ def race_stream(ctx):
                 if x == 'C':
                     cs = True
                 elif x[0] == 'S':
+                    if x[1:] in defined:
+                        what = 'two event sources are written under the same id %s (entries: %s)' % (x[1:], ','.join(seq)[:300])
+                        break
                     defined.add(x[1:])
                 elif x[0] == 'E':
                     if x[1:] not in defined:
